@@ -8,6 +8,7 @@ package py
 type Enumerate struct {
 	Iterable Object
 	Start    Int
+	Index    Int // index of the next item
 }
 
 // A python Enumerate iterator
@@ -54,15 +55,23 @@ func EnumerateNew(metatype *Type, args Tuple, kwargs StringDict) (Object, error)
 		return nil, err
 	}
 
-	return &Enumerate{Iterable: iter, Start: startIndex}, nil
+	return &Enumerate{Iterable: iter, Start: startIndex, Index: startIndex}, nil
 }
 
-// Enumerate iterator
+// Enumerate iterator - an enumerate object is its own iterator
 func (e *Enumerate) M__iter__() (Object, error) {
-	return &EnumerateIterator{
-		Enumerate: *e,
-		Index:     e.Start,
-	}, nil
+	return e, nil
+}
+
+// Enumerate iterator next
+func (e *Enumerate) M__next__() (Object, error) {
+	value, err := Next(e.Iterable)
+	if err != nil {
+		return nil, err
+	}
+	res := Tuple{e.Index, value}
+	e.Index += 1
+	return res, nil
 }
 
 // EnumerateIterator iterator
@@ -84,5 +93,5 @@ func (ei *EnumerateIterator) M__next__() (Object, error) {
 }
 
 // Check interface is satisfied
-var _ I__iter__ = (*Enumerate)(nil)
+var _ I_iterator = (*Enumerate)(nil)
 var _ I_iterator = (*EnumerateIterator)(nil)
